@@ -35,7 +35,7 @@ pub const DEF: PropDef = PropDef {
     ],
     run,
     replay,
-    cap_s: (45, 780),
+    cap_s: (45, 1800),
     shards: 0,
 };
 
